@@ -80,6 +80,7 @@ def run(P: Program, R: Report, tier: str) -> None:
         "on both the bulk and the incremental path the kernel is given the source's and the target's own frames for every edge it writes, "
         "and an edge receives the entry matched on both of its labels",
     ]
+    R.decides += ['enabling with recomputation computes every requested key; the IoU write kernel reaches its catch-all loop on every path; memo discipline']
     R.not_decided += ["the value of the ratio itself"]
     A = ActionAnalysis(P)
     ann = P.class_named("EdgeAnnotator")
